@@ -241,7 +241,9 @@ impl UpdatePage {
     /// Deserialize from a 512-byte slice. Returns `None` for empty pages.
     ///
     /// An empty page is detected by the first 4 bytes being zero
-    /// (hash_guard of the first entry is zero).
+    /// (hash_guard of the first entry is zero). Entries whose stored hash
+    /// guard does not match `hashlittle(bytes[4..23], 0) | 0x80000000` are
+    /// dropped.
     pub fn from_bytes(data: &[u8]) -> Option<Self> {
         if data.len() < UPDATE_PAGE_SIZE {
             return None;
@@ -271,15 +273,18 @@ impl UpdatePage {
 
             let mut arr = [0u8; UPDATE_ENTRY_SIZE];
             arr.copy_from_slice(entry_slice);
-            entries.push(UpdateEntry::from_bytes(&arr));
+            // The guard covers bytes 4..23 of the slot. An entry whose stored
+            // guard does not match is corrupt: it is skipped, so that its
+            // key, location and status never reach lookups or the next flush.
+            if hash_guard == UpdateEntry::compute_hash_guard(&arr) {
+                entries.push(UpdateEntry::from_bytes(&arr));
+            }
             offset += UPDATE_ENTRY_SIZE;
         }
 
-        if entries.is_empty() {
-            None
-        } else {
-            Some(Self { entries })
-        }
+        // May hold no entry when every used slot failed its guard; the page
+        // is still not the end-of-section marker.
+        Some(Self { entries })
     }
 }
 
@@ -425,6 +430,8 @@ impl UpdateSection {
         while offset + UPDATE_PAGE_SIZE <= data.len() {
             let page_data = &data[offset..offset + UPDATE_PAGE_SIZE];
             match UpdatePage::from_bytes(page_data) {
+                // a page whose entries all failed their guard contributes nothing
+                Some(page) if page.is_empty() => {}
                 Some(page) => pages.push(page),
                 None => break,
             }
